@@ -682,7 +682,10 @@ func (mpt *MerklePatriciaTrie) deleteAtNode(key Key, node Node, prefix, path Pat
 		return mpt.insertNode(node, nnode)
 	case *LeafNode:
 		if bytes.Equal(path, nodeImpl.Path) {
-			return mpt.deleteAfterPathTraversal(node)
+			if err := mpt.deleteNode(node); err != nil {
+				return nil, nil, err
+			}
+			return nil, nil, nil
 		}
 
 		return nil, nil, ErrValueNotPresent // There is nothing to delete
@@ -768,6 +771,9 @@ func (mpt *MerklePatriciaTrie) insertAfterPathTraversal(value MPTSerializable, n
 func (mpt *MerklePatriciaTrie) deleteAfterPathTraversal(node Node) (Node, Key, error) {
 	switch nodeImpl := node.(type) {
 	case *FullNode:
+		if !nodeImpl.HasValue() {
+			return nil, nil, ErrValueNotPresent // There is nothing to delete
+		}
 		// The value of the branch needs to be updated
 		nnode := nodeImpl.Clone().(*FullNode)
 		nnode.SetValue(nil)
@@ -779,12 +785,17 @@ func (mpt *MerklePatriciaTrie) deleteAfterPathTraversal(node Node) (Node, Key, e
 		// if nodeImpl.HasValue() {
 		// 	mpt.ChangeCollector.DeleteChange(nodeImpl.Value)
 		// }
+		if len(nodeImpl.Path) != 0 {
+			// the path ends here but the leaf holds a longer one
+			return nil, nil, ErrValueNotPresent // There is nothing to delete
+		}
 		if err := mpt.deleteNode(node); err != nil {
 			return nil, nil, err
 		}
 		return nil, nil, nil
 	case *ExtensionNode:
-		panic("this should not happen!")
+		// the path ends where an extension starts: no value is stored here
+		return nil, nil, ErrValueNotPresent // There is nothing to delete
 	default:
 		panic(fmt.Sprintf("unknown node type: %T %v", node, node))
 	}
